@@ -63,7 +63,7 @@ pub fn session(rng: &mut Rng) -> Generated {
         let a = rng.range(1, 50);
         let b = rng.range(1, 50);
         let times = rng.range(0, 3);
-        match rng.below(23) {
+        match rng.below(25) {
             0 => {
                 names.push("early-exit");
                 let limit = rng.range(0, 8);
@@ -399,6 +399,30 @@ pub fn session(rng: &mut Rng) -> Generated {
                         t = t,
                         a = a,
                         b = b
+                    ),
+                );
+            }
+            23 | 24 => {
+                // a continuation k1 captured in an activation that has returned is kept only in a
+                // local of another activation, which in turn is kept only by a second continuation
+                // k2 (a global): k1 is reachable through k2's saved state alone. k2 is re-entered
+                // from later forms and invokes k1.
+                names.push("continuation-held-by-continuation");
+                reentry = true;
+                p(
+                    &mut forms,
+                    &format!(
+                        "(define nsaved{t} #f)
+                         (define (ng{t} x) (let ((v (list x (* x 10) 'payload))) (let ((r (call/cc (lambda (c) c)))) (if (procedure? r) r (+ r (car (cdr v)))))))
+                         (define (nf{t}) (let ((k1 (ng{t} {a}))) (if (procedure? k1) (let ((n (call/cc (lambda (c) (set! nsaved{t} c) 0)))) (if (= n 0) 'armed (k1 n))) (list 'delivered k1))))
+                         (nf{t})
+                         (c-build {b})
+                         (nsaved{t} 5)
+                         (c-build {b})
+                         (nsaved{t} 7)",
+                        t = t,
+                        a = a,
+                        b = 20 + b
                     ),
                 );
             }
